@@ -79,7 +79,6 @@ def _model_outputs(m):
 
 def run_path(env, contract, script, explorer, prune=True):
     m = Machine(env, script, explorer, prune=prune)
-    m.seq_classes = {}
     env.current_target = contract.fn
     args = {}
     for pname, ty in contract.args.items():
